@@ -116,12 +116,40 @@ def cases(tier):
 # ---------------------------------------------------------------------------
 # worker side
 # ---------------------------------------------------------------------------
+def prepare(tier):  # pylint: disable=unused-argument
+    """Parent side: one scratch directory for the whole run (transformations
+    such as the extraction ones write driver files into the current working
+    directory); removed in finish() and at interpreter exit."""
+    import atexit
+    from mc.runner import scratch_dir
+    path = scratch_dir("c26")
+    os.environ["C26_SCRATCH"] = path
+    atexit.register(_remove_scratch, path, os.getpid())
+
+
+def _remove_scratch(path, pid):
+    import shutil
+    if os.getpid() == pid:
+        shutil.rmtree(path, ignore_errors=True)
+
+
 def init_worker(tier):
     _setup_env()
     import sys
     sys.setrecursionlimit(5000)
     import psyclone  # noqa: F401  pylint: disable=unused-import
+    from psyclone.configuration import Config
     core.install()
+    base = os.environ.get("C26_SCRATCH")
+    if not base:
+        # stand-alone use (replay, development): private scratch directory
+        prepare(tier)
+        base = os.environ["C26_SCRATCH"]
+    work = os.path.join(base, f"w{os.getpid()}")
+    os.makedirs(work, exist_ok=True)
+    os.chdir(work)
+    _STATE["workdir"] = work
+    Config.get().kernel_output_dir = work
     _STATE["tier"] = tier
     _STATE["seeds"] = {}
 
@@ -356,6 +384,7 @@ class Runner:
         tcls = "/".join(core.target_classes(inst["root"], d) for d in tdescs)
         res, changed, before, after = self.execute(inst, tdescs, odesc,
                                                    inject)
+        res["changed"] = changed
         if inject is not None:
             self.inject_runs += 1
             if not res["injected"]:
@@ -375,7 +404,7 @@ class Runner:
             where = res["site"]
             if inject is not None:
                 call = res["calls"][inject]
-                where = f"{call['label']}#{call['n']}"
+                where = f"{call['label']}#{'0' if call['n'] == 0 else 'n'}"
                 if res["site"] != "injected":
                     where += f">{res['site']}"
             if res["fullsite"]:
@@ -498,7 +527,7 @@ class Runner:
                 where = res["site"]
                 if inject is not None:
                     call = res["calls"][inject]
-                    where = f"{call['label']}#{call['n']}"
+                    where = f"{call['label']}#{'0' if call['n'] == 0 else 'n'}"
                 self._count("gen:refused-CHANGED")
                 self._violation(tdescs, odesc, inject, res, where,
                                 ["gen"], {"gen": ref}, {"gen": text})
@@ -523,22 +552,57 @@ class Runner:
         if ocap:
             self.caps["option_pair_cap_hits"] = 1
         cap = QUICK_INJECT_CAP if tier == "quick" else THOROUGH_INJECT_CAP
+        # non-node targets first: the raise sites that refuse them are the
+        # "wrong kind of target" refusals of this transformation
+        targets = sorted(targets, key=lambda t: 0 if all(
+            d["t"] == "py" for d in t) else 1)
+        wrong_kind = set()
         for tdescs in targets:
             shapes = set()
-            for odesc in options:
+            is_py = all(d["t"] == "py" for d in tdescs)
+            for onum, odesc in enumerate(options):
                 res = self.attempt(tdescs, odesc)
-                if not res["calls"]:
-                    continue
-                if tier == "quick":
-                    # quick tier: one injection campaign per distinct
-                    # (target, nested call sequence, outcome, raise site)
-                    shape = (tuple(c["label"] for c in res["calls"]),
-                             res["outcome"], res["site"])
-                    if shape in shapes:
-                        self._count("inject:skipped-same-call-sequence")
-                        continue
-                    shapes.add(shape)
-                self.inject_all(tdescs, odesc, res, cap)
+                changed = res.get("changed")
+                if onum == 1 and res["outcome"] == "TE" and not changed:
+                    # the {} attempt
+                    if is_py:
+                        wrong_kind.add(res["site"])
+                    elif tier == "quick" and res["site"] in wrong_kind and \
+                            all(c.get("err") is res["err"]
+                                for c in res["calls"]):
+                        # quick tier: a target refused for the same reason as
+                        # a non-node object gets only the four base option
+                        # descriptors
+                        rest = len(options) - 4
+                        if rest > 0:
+                            self._count("quick:option-sets-skipped-on-"
+                                        "wrong-kind-target", rest)
+                            skip_rest = True
+                        else:
+                            skip_rest = False
+                        res["skip_rest"] = skip_rest
+                if res["calls"]:
+                    if tier == "quick":
+                        # quick tier: one injection campaign per distinct
+                        # (target, nested call sequence, outcome, raise site)
+                        shape = (tuple(c["label"] for c in res["calls"]),
+                                 res["outcome"], res["site"])
+                        if shape in shapes:
+                            self._count("inject:skipped-same-call-sequence")
+                        else:
+                            shapes.add(shape)
+                            self.inject_all(tdescs, odesc, res, cap)
+                    else:
+                        self.inject_all(tdescs, odesc, res, cap)
+                if onum == 1 and res.get("skip_rest"):
+                    skipping = True
+                else:
+                    skipping = False
+                if skipping:
+                    # still run descriptors 2 and 3 (non-dict, unknown key)
+                    for extra in options[2:4]:
+                        self.attempt(tdescs, extra)
+                    break
         self.gen_pass()
         out = {"evals": self.evals, "nontrivial": len(self.distinct),
                "classes": self.classes, "viol": self.viol,
@@ -562,6 +626,8 @@ def run_case(case):
 # ---------------------------------------------------------------------------
 def finish(tier, totals):
     global EXHAUSTIVE
+    if os.environ.get("C26_SCRATCH"):
+        _remove_scratch(os.environ["C26_SCRATCH"], os.getpid())
     extra = totals["extra"]
     sites = core.raise_sites()
     hit = extra.get("site_hits", {})
